@@ -424,6 +424,9 @@ func runHarness(cfg *Config, prog *ssa.Program, pkg *ssa.Package, name string, v
 	res.Paths = counts
 	res.FinalQ = len(done)
 	res.SolverS = float64(pool.solverT) / 1e9
+	if pool.fallbacks > 0 {
+		res.Stats["queries-decided-by-a-second-attempt(other-z3-build-or-seed)"] = int(pool.fallbacks)
+	}
 	allStats := map[string]int{}
 	for _, w := range workers {
 		for k, v := range w.dropped {
